@@ -1061,3 +1061,31 @@ GROUPS["p18"] = [
       '        let read_path = |key: &str| -> Result<Option<PathBuf>> {\n            match value.get(key) {\n                None => Ok(None),\n                Some(Value::String(path)) => Ok(Some(path.try_resolve()?.to_path_buf())),\n                Some(_) => bail!("a path must be a string."),\n            }\n        };\n        if let Some(path) = read_path("statsPath")? {\n            base.stats_path = path;\n        }\n',
       None),
 ]
+
+GROUPS["g30"] = [
+    # round 8
+    E("c04-braces-are-leaders", ["C04"], "harper-comments/src/comment_parsers/mod.rs",
+      "    matches!(c, '#' | '-' | '/' | '*' | '!')",
+      "    matches!(c, '#' | '-' | '/' | '*' | '!' | '{' | '}')",
+      "R-C04-leaders:without_initiators:delimiters"),
+    E("c10-config-falls-back-to-default", ["C10"], "harper-ls/src/backend.rs",
+      "        if let Ok(new_config) = Config::from_lsp_config(json_obj).map_err(|err| error!(\"{err}\")) {\n            let mut config = self.config.write().await;\n            *config = new_config;\n        }\n",
+      "        let new_config = Config::from_lsp_config(json_obj).unwrap_or_else(|err| {\n            error!(\"{err}\");\n            Config::default()\n        });\n        let mut config = self.config.write().await;\n        *config = new_config;\n",
+      "R-C10-files:config-source:backend::{impl#0}::update_config_from_obj"),
+    E("c07-merged-exact-first-child", ["C07"], "harper-core/src/spell/merged_dictionary.rs",
+      "        for child in &self.children {\n            if child.contains_exact_word(word) {\n                return true;\n            }\n        }\n        false\n",
+      "        self.children\n            .iter()\n            .find(|child| child.contains_word(word))\n            .is_some_and(|child| child.contains_exact_word(word))\n",
+      "R-C07-accept:MergedDictionary::contains_exact_word"),
+]
+
+GROUPS["p19"] = [
+    # the same leader set written as a slice test; the same store written as a match
+    E("p-c04-leaders-as-slice", ["C04"], "harper-comments/src/comment_parsers/mod.rs",
+      "    matches!(c, '#' | '-' | '/' | '*' | '!')",
+      "    ['#', '-', '/', '*', '!'].contains(&c)",
+      None),
+    E("p-c10-config-store-as-match", ["C10"], "harper-ls/src/backend.rs",
+      "        if let Ok(new_config) = Config::from_lsp_config(json_obj).map_err(|err| error!(\"{err}\")) {\n            let mut config = self.config.write().await;\n            *config = new_config;\n        }\n",
+      "        match Config::from_lsp_config(json_obj) {\n            Ok(new_config) => {\n                let mut config = self.config.write().await;\n                *config = new_config;\n            }\n            Err(err) => error!(\"{err}\"),\n        }\n",
+      None),
+]
